@@ -28,6 +28,9 @@ type Machine struct {
 	Flags  map[string]bool
 	Recent []uint32
 
+	Indexes []*IndexState
+	ixSeq   int
+
 	everDeleted map[uint32][]bool // offsets deleted at some point -> columns that held a value when deleted
 	actions     int
 	bigPrefills int
